@@ -87,12 +87,18 @@ AbcsX(c) ==
 \* the recursion placeholder BeartypeInferHintContainerRecursion
 RecCls == "Recursion"
 
+AllClsX == AtomCls \cup SeqCls \cup CollCls \cup MapCls \cup IterCls \cup ViewCls \cup XCls
+AbcNames == {"Sequence", "MutableSequence", "Collection", "Iterable", "Container", "Reversible", "Sized", "AbstractSet",
+             "MutableSet", "KeysView", "ValuesView", "ItemsView", "Mapping", "MutableMapping", "Iterator", "Generator",
+             "Callable"}
+\* isinstance as a table, evaluated once: class -> every class / ABC name its instances are instances of
+InstTab == TLCEval([c \in AllClsX |-> { d \in AllClsX \cup AbcNames : SubClsX(c, d) \/ d \in AbcsX(c) }])
 \* isinstance(x, c), c a concrete class or an ABC name
 InstX(x, c) ==
   IF c = "object" THEN TRUE
   ELSE IF c = RecCls THEN ~RC_Marker          \* intended: the placeholder accepts everything
   ELSE IF x.k = "type" THEN c \in {"type", "Callable"}
-  ELSE SubClsX(x.cls, c) \/ c \in AbcsX(x.cls)
+  ELSE c \in InstTab[x.cls]
 
 (* ------------------------------------------------------------ back-references *)
 \* Back(n): this item IS the n-th enclosing container (1 = the container holding the item)
@@ -179,8 +185,11 @@ AGenG == {"aclose", "asend", "athrow"}
 CmpG  == {"__eq__", "__ne__", "__lt__", "__le__", "__gt__", "__ge__"}
 
 Edge(req, to) == [req |-> req, to |-> to]
+FsmNodes == {"start", "Container", "Collection", "Sequence", "MutableSequence", "Mapping", "MutableMapping", "Set",
+             "MutableSet", "Iterable", "Iterator", "Generator", "Reversible", "Awaitable", "Coroutine",
+             "AsyncIterable", "AsyncIterator", "AsyncGenerator", "Sized", "Buffer"}
 \* out-edges IN DICTIONARY ORDER (the order matters: the second lookup path takes the first match)
-Edges(n) ==
+EdgesDef(n) ==
   CASE n = "start" -> << Edge({"__contains__"}, "Container"), Edge({"__iter__"}, "Iterable"),
                          Edge({"__await__"}, "Awaitable"), Edge({"__aiter__"}, "AsyncIterable"),
                          Edge({"__len__"}, "Sized"), Edge({"__buffer__"}, "Buffer") >>
@@ -195,10 +204,10 @@ Edges(n) ==
     [] n = "AsyncIterable" -> << Edge({"__anext__"}, "AsyncIterator") >>
     [] n = "AsyncIterator" -> << Edge(AGenG, "AsyncGenerator") >>
     [] OTHER -> << >>
-FsmNodes == {"start", "Container", "Collection", "Sequence", "MutableSequence", "Mapping", "MutableMapping", "Set",
-             "MutableSet", "Iterable", "Iterator", "Generator", "Reversible", "Awaitable", "Coroutine",
-             "AsyncIterable", "AsyncIterator", "AsyncGenerator", "Sized", "Buffer"}
-EdgeNames(n) == UNION { Edges(n)[i].req : i \in DOMAIN Edges(n) }
+EdgesTab == TLCEval([n \in FsmNodes |-> EdgesDef(n)])
+Edges(n) == EdgesTab[n]
+EdgeNamesTab == TLCEval([n \in FsmNodes |-> UNION { EdgesDef(n)[i].req : i \in DOMAIN EdgesDef(n) }])
+EdgeNames(n) == EdgeNamesTab[n]
 MinOf(S) == CHOOSE m \in S : \A k \in S : m <= k
 
 \* the two lookup paths of the loop body of _infer_hint_factory_collections_abc
@@ -253,6 +262,9 @@ AbcPathCls == {"USeq", "DSeq", "UColl", "UMap", "UIter", "gen", "dict_items", "o
                "UMSeq", "UMMap", "UMapNe", "DMap", "mappingproxy", "USized", "UCont", "URev", "UItor", "E", "A", "B",
                "object", "bool", "NoneType"}
 
+\* the automaton's path per class, evaluated once
+PathTab == TLCEval([c \in AllClsX |-> FsmPath("start", MethodsOf(c))])
+
 (* ------------------------------------------------------------------ infer_hint *)
 HRec == HCls(RecCls)
 ObjH == HCls("object")
@@ -262,11 +274,13 @@ BuiltinTable(c) ==
     [] c = "dict_keys" -> "KeysView" [] c = "dict_values" -> "ValuesView"
     [] OTHER -> ""
 Unsubscriptable(c) == c \in {"odict_keys", "odict_values"}          \* no __class_getitem__
-BuiltinFactory(c) ==
+BuiltinFactoryDef(c) ==
   IF BuiltinTable(c) # "" THEN BuiltinTable(c)
   ELSE IF ParentX(c) # "object" /\ BuiltinTable(ParentX(c)) # ""
        THEN (IF Unsubscriptable(c) /\ ~RC_Unsubscr THEN BuiltinTable(ParentX(c)) ELSE c)
   ELSE ""
+BuiltinFacTab == TLCEval([c \in AllClsX |-> BuiltinFactoryDef(c)])
+BuiltinFactory(c) == BuiltinFacTab[c]
 \* factory[child]
 Mk1(f, h) == IF h.k \in {"exc", "diverge"} THEN h
              ELSE IF Unsubscriptable(f) THEN HExc("TypeError")       \* type 'odict_keys' is not subscriptable
@@ -314,7 +328,7 @@ InfItems(x, f, isMap, d, st, r) ==
 \* infer_hint_collections_abc: narrowest ABC by the automaton, wrapped in Annotated[..., IsInstance[type(x)]]
 InfAbc(x, d, st, r) ==
   LET c    == x.cls
-      path == FsmPath("start", MethodsOf(c))
+      path == PathTab[c]
       \* intended: the deepest node on the path whose ABC the object really is an instance of
       ok   == { i \in 2..Len(path) : InstX(x, Factory(path[i])) }
       node == IF RC_Duck THEN Last(path) ELSE IF ok = {} THEN "start" ELSE path[CHOOSE i \in ok : \A j \in ok : j <= i]
@@ -332,7 +346,7 @@ Inf(x, d, st, r) ==
   ELSE IF x.cls = "NoneType" THEN HCls("NoneType")                           \* None is a PEP 484 hint: returned as is
   ELSE IF x.cls \in ScalarCls THEN HCls(x.cls)
   ELSE LET bf == BuiltinFactory(x.cls) IN
-       IF bf # "" THEN InfItems(x, bf, "Mapping" \in AbcsX(x.cls), d, st, r)
+       IF bf # "" THEN InfItems(x, bf, "Mapping" \in InstTab[x.cls], d, st, r)
        ELSE InfAbc(x, d, st, r)
 
 \* top-level call
